@@ -5,6 +5,7 @@
 package main
 
 import (
+	"runtime"
 	"encoding/json"
 	"flag"
 	"fmt"
@@ -104,6 +105,50 @@ func main() {
 		}
 		close(start)
 		gw.Wait()
+	}
+	// default rounds: one shared slice schema whose default holds memory in every shape a struct element can
+	// (a struct by value holding a slice, an array of slices, a map, a pointer); every goroutine validates its own
+	// nil slice, writes its own stamp through the value it got and must read its own stamp back: a result that shares
+	// memory with the default (and so with every other result) shows another goroutine's stamp, or a race report
+	{
+		type inner struct{ Tags []string }
+		type wide struct {
+			Name   string
+			In     inner
+			Groups [2][]string
+			Meta   map[string]string
+			P      *inner
+		}
+		shared := z.Slice(z.Struct(z.Schema{"name": z.String().Min(1)})).Default([]wide{{Name: "w", In: inner{Tags: []string{"t"}},
+			Groups: [2][]string{{"g"}, {"h"}}, Meta: map[string]string{"k": "v"}, P: &inner{Tags: []string{"p"}}}})
+		var dw sync.WaitGroup
+		for w := 0; w < *workers; w++ {
+			dw.Add(1)
+			go func(w int) {
+				defer dw.Done()
+				stamp := fmt.Sprintf("stamp-%d", w)
+				for it := 0; it < 40; it++ {
+					var d []wide
+					errs := shared.Validate(&d)
+					atomic.AddInt64(&total, 1)
+					bad := ""
+					if errs != nil || len(d) != 1 || d[0].Name != "w" || len(d[0].In.Tags) != 1 || d[0].In.Tags[0] != "t" || d[0].Groups[0][0] != "g" || d[0].Meta["k"] != "v" || d[0].P == nil || d[0].P.Tags[0] != "p" {
+						bad = fmt.Sprintf("Validate of a nil slice gave %+v (issues %v) instead of the default", d, errs)
+					} else {
+						d[0].In.Tags[0], d[0].Groups[0][0], d[0].Meta["k"], d[0].P.Tags[0] = stamp, stamp, stamp, stamp
+						runtime.Gosched()
+						if d[0].In.Tags[0] != stamp || d[0].Groups[0][0] != stamp || d[0].Meta["k"] != stamp || d[0].P.Tags[0] != stamp {
+							bad = fmt.Sprintf("goroutine %d wrote %q through its own result and read back %+v", w, stamp, d)
+						}
+					}
+					if bad != "" {
+						atomic.AddInt64(&wrong, 1)
+						first.CompareAndSwap(nil, "default round: "+bad)
+					}
+				}
+			}(w)
+		}
+		dw.Wait()
 	}
 	for w := 0; w < *workers; w++ {
 		wg.Add(1)
